@@ -10,7 +10,7 @@ import (
 	rt "github.com/Azbesciak/RealDecisionMaker/lib/zz_verifrt"
 )
 
-//verif:bounds C05 HC05_credibility: credibility of one ordered pair (electreIIICredibility: evaluatePair, calculateElectreResult, calculateTotalC, calculateCredibility) against the textbook formula: K<=2 (quick) / K<=3 (thorough) criteria, gain and cost, every combination of present/absent constant thresholds (none, q, p, q+p, p+v, q+p+v) with symbolic 0 < q < p < v, symbolic k > 0, symbolic values (ties included)
+//verif:bounds C05 HC05_credibility: credibility of one ordered pair (electreIIICredibility: evaluatePair, calculateElectreResult, calculateTotalC, calculateCredibility) against the textbook formula: K<=3 criteria (quick tier at K=3: each criterion without thresholds or with q+p+v), gain and cost, every combination of present/absent constant thresholds (none, q, p, q+p, p+v, q+p+v) with symbolic 0 < q < p < v, symbolic k > 0, symbolic values (ties included)
 //verif:bounds C05 HC05_distillation: RankAscending / RankDescending on an ARBITRARY symbolic credibility matrix (off-diagonal entries free in [0,1], ties and zeros included) of n<=3 (quick) / n<=4 (thorough) alternatives with the default distillation function (thorough also a symbolic one with non-positive slope and non-negative values on [0,1]) against a set-based reference distillation written from the method's definition: equal class numbers, classes consecutive from 1
 //verif:bounds C05 HC05_preorder: EvaluateRanking on every pair of index vectors over n<=3 alternatives: b in betterThanOrSameAs(a) iff asc(a)<=asc(b) and desc(a)<=desc(b), b != a
 //verif:bounds C05 HC05_end_to_end: ElectreIII (through ParseParams and Evaluate) with A<=3 alternatives and K=1, or A<=2 and K=2 (quick); A<=3, K<=2 (thorough), symbolic values, thresholds from the shapes above with concrete numbers: indices equal the reference distillation of the credibility matrix the implementation computed, links as specified
@@ -18,13 +18,19 @@ import (
 
 //verif:harness HC05_credibility mode=REAL reach=indifferent,weak-preference,veto-partial,veto-full,equal-values,strict-better ob_timeout_ms=60000
 func HC05_credibility() {
-	K := rt.IntRange("K", 1, rt.Pick(2, 3))
+	K := rt.IntRange("K", 1, 3)
 	crit := vh.Criteria(K, "")
 	known := vh.Alternatives("", vh.AltIds[:2], crit)
 	thr := map[string]eThr{}
 	ec := ElectreCriteria{}
 	for _, c := range crit {
-		t, e := eThresholds("", c, rt.OneOf("thresholds."+c.Id, eShapes...))
+		shapes := eShapes
+		if K == 3 && !rt.Thorough() {
+			// quick tier at K=3: every criterion either without thresholds or with all three (two vetoing criteria
+			// next to a concordant one need K=3)
+			shapes = []string{"none", "qpv"}
+		}
+		t, e := eThresholds("", c, rt.OneOf("thresholds."+c.Id, shapes...))
 		thr[c.Id] = t
 		ec[c.Id] = e
 	}
